@@ -119,7 +119,7 @@ RULE = ("correspondence: random listener lists (1-6 listeners out of 14 kinds) x
         "plus the real events_iterator (0-4 labels) / find_event (label, offset -1..7) over the real stream (non-trivial: something is returned). "
         "oracle: every clause as a predicate on real orbits (see samples); tolerances from the property text; families ordered cheap-first "
         "(simultaneous crossings, steep-edged masks, shadow events of one trajectory expressed in / computed from EME2000, ITRF and station frames, large anomaly steps, backward, geosynchronous, numerical, ephemeris, analytical, visibility); when a proof / translator / "
-        "correspondence is broken in the quick tier the 10x sample is bounded (20 s per family, 150 s in total) and stops at the first failing input outside the open findings")
+        "correspondence is broken in the quick tier the 10x sample is bounded (20 s per family and 150 s in total once 5 inputs of a family have run, 10 where the correspondence points) and stops at the first failing input outside the open findings")
 
 US = None  # timedelta(microseconds=1), set by _setup
 
@@ -140,6 +140,7 @@ def _setup():
 # =====================================================================================
 
 _station_counter = [0]
+_ephem_counter = [0]
 
 
 def gen_station(rng, inc=None, mask=False):
@@ -537,7 +538,8 @@ def gen_spec(rng, mode, kind, big=True):
     elif mode == "ephem":
         sp["listeners"], sp["station"] = gen_listeners(rng, o)
         sp["estep_s"] = P / rng.uniform(60, 120)
-        sp["emode"] = rng.choice(["nostep", "step", "dates"])
+        sp["emode"] = ["nostep", "step", "dates"][_ephem_counter[0] % 3]    # (cycled: every tier sees the stored-points form first)
+        _ephem_counter[0] += 1
         sp["start_s"], sp["span_s"], sp["step_s"] = 8 * sp["estep_s"], 1.5 * P - 16 * sp["estep_s"], gen_step(rng, P)
     elif mode == "numerical":
         sp["listeners"], sp["station"] = gen_listeners(rng, o, with_station=False)
@@ -718,7 +720,21 @@ def run_spec(out, sp):
             kw = dict(start=start, stop=stop, step=timedelta(seconds=sp["step_s"]))
         else:
             kw = dict(dates=list(Date.range(start, stop, timedelta(seconds=sp["step_s"]))))
-        run_stream(out, eph, "ephem", Ls, kw, desc, propagate=eph.propagate)
+        stream, blocks = run_stream(out, eph, "ephem", Ls, kw, desc, propagate=eph.propagate)
+        if sp["emode"] == "nostep":
+            # the same walk over the stored points, started strictly inside the ephemeris at the first stored point AFTER an
+            # event: the stream is the tail of the first one, it begins with that point — nothing dated before `start`
+            sig = lambda st: [(o.date._mjd, o.event.info if o.event else None) for o in st]
+            k = next((i for i in range(2, len(blocks)) if blocks[i][0]), None)
+            if k is not None:
+                s_next = blocks[k][1]
+                tail = [blocks[k][1]] + [o for b in blocks[k + 1:] for o in b[0] + [b[1]]]
+                got = list(eph.iter(start=s_next.date, stop=stop, listeners=Ls))
+                out.count(key=("ephem-start-inside", desc["epoch"]), kind="ephem-start-inside")
+                if sig(got) != sig(tail):
+                    out.fail("ephem:start-inside", "Ephem.iter started at a stored point inside the ephemeris: the stream is not the tail of the full one "
+                             "(events of the interval before `start` emitted, or dated outside [start, stop])",
+                             dict(desc, start=str(s_next.date)), observed=sig(got)[:4], expected=sig(tail)[:4])
     elif mode == "shadow-frames":
         check_shadow_frames(out, orb, sta, sp, desc)
     elif mode == "numerical":
@@ -843,6 +859,7 @@ def check_visibility(out, orb, sta, kw, desc):
 
 HUNT_FAMILY_CAP_S = 20.0     # widened oracle in the quick tier: time given to one family of inputs …
 HUNT_TOTAL_CAP_S = 150.0     # … and to all of them
+HUNT_MIN_INPUTS = 5          # … but every family gets at least this many inputs (twice as many where the correspondence points)
 
 
 def oracle(ctx, widened):
@@ -859,15 +876,18 @@ def oracle(ctx, widened):
     plan = [("simultaneous", 8 if big else 1, None), ("steep-mask", 8 if big else 1, None), ("shadow-frames", 8 if big else 1, None), ("anomaly-large-step", 20 if big else 2, None),
             ("backward", 20 if big else 2, 0), ("geosync", 15 if big else 2, None), ("numerical", 15 if big else 1, 0),
             ("ephem", 30 if big else 2, 1), ("analytical", 60 if big else 3, 0), ("visibility", 20 if big else 2, None)]
+    hinted = None
     if hunt and any("visibility" in b for b in ctx.broken):
-        plan.sort(key=lambda x: x[0] != "visibility")     # the correspondence points at visibility: look there first
+        hinted = "visibility"
+        plan.sort(key=lambda x: x[0] != "visibility")     # the correspondence points at visibility: look there first (and longer)
     known = core.load_known()
     t_all = time.time()
     found = None
     for mode, n, off in plan:
         t_fam = time.time()
         for i in range(n):
-            if hunt and (found is not None or time.time() - t_fam > HUNT_FAMILY_CAP_S or time.time() - t_all > HUNT_TOTAL_CAP_S):
+            least = HUNT_MIN_INPUTS * (2 if hinted == mode else 1)
+            if hunt and (found is not None or (i >= least and (time.time() - t_fam > HUNT_FAMILY_CAP_S or time.time() - t_all > HUNT_TOTAL_CAP_S))):
                 out.tally(f"hunt-skipped:{mode}")
                 continue
             kind = "leo" if off is None else kinds[(i + off) % len(kinds)]
@@ -1568,7 +1588,7 @@ def gen_case(rng):
     # the states' own frame: latitude (or, when a frame-less anomaly listener is present, the anomaly in fixed point),
     # its rate, radial velocity, (mask: unused)
     own = (own_anom if own_anom is not None else gen_poly(rng, lo, hi, ts), gen_poly(rng, lo, hi, ts, 2), gen_poly(rng, lo, hi, ts, 2), [0])
-    mode = rng.choice(["dates", "dates", "range", "ephem-dates", "ephem-step", "ephem-nostep"])
+    mode = rng.choice(["dates", "dates", "range", "ephem-dates", "ephem-step", "ephem-nostep", "ephem-inside"])
     steps = {ts[i + 1] - ts[i] for i in range(len(ts) - 1)}
     if mode in ("range", "ephem-step") and (len(steps) != 1 or (mode == "ephem-step" and ts[1] < ts[0])):
         mode = "dates"
@@ -1600,6 +1620,11 @@ def real_stream(env, ts, specs, mode, history, own):
         # stored points: the samples themselves (nostep) or a coarser grid around them
         if mode == "ephem-nostep":
             src = env.StubEphem(dates, chans)
+        elif mode == "ephem-inside":
+            # stored points ahead of `start` and beyond `stop`: they are not part of the iteration
+            lo, hi = min(ts), max(ts)
+            gap = max(1, abs(ts[1] - ts[0]))
+            src = env.StubEphem([env.date(lo - 2 * gap - 1), env.date(lo - gap)] + dates + [env.date(hi + gap), env.date(hi + 3 * gap)], chans)
         else:
             lo, hi = min(ts), max(ts)
             src = env.StubEphem([env.date(lo - 5), env.date((lo + hi) // 2), env.date(hi + 5)], chans)
@@ -1618,7 +1643,7 @@ def real_stream(env, ts, specs, mode, history, own):
             return src.iter(start=dates_[0], stop=dates_[-1], step=step, listeners=arg)
         if mode == "ephem-step":
             return src.iter(start=dates_[0], stop=dates_[-1], step=step, listeners=arg)
-        if mode == "ephem-nostep":
+        if mode in ("ephem-nostep", "ephem-inside"):
             return src.iter(start=dates_[0], stop=dates_[-1], listeners=arg)
         raise ValueError(mode)
     if history == "reuse":
